@@ -1,1 +1,2 @@
-
+import Spec.Types
+import Spec.Parse
